@@ -8,6 +8,7 @@
      LockDiscipline   a process at `acc` holds the lock in the mode it needs; a writer excludes everyone
      Linearizable     a lookup returns the size that some registration prefix, consistent with real-time
                       order, had installed (the value of the map between its acq and rel)
+     NoDeadlock       as long as an operation is outstanding some process can take a step
    Every maximal behaviour (its schedule) is emitted as a case; the Go harness replays it on the real
    code with the blocking hook as scheduler gate. *)
 EXTENDS Integers, Sequences, SequencesExt, FiniteSets, TLC, Json, IOUtils, CSV
@@ -63,6 +64,8 @@ LockDiscipline == /\ \A p \in Decoders : pc[p] \in {"acq", "acc"} => (p \in read
 \* the value a lookup saw is the value the map had throughout its critical section (no write can intervene)
 Linearizable == \A p \in Decoders : pc[p] = "acc" => seen[p] = reg[Cur(p).cid]
 Maximal == \A p \in Procs : ~HasOp(p)
+\* deadlock freedom of the lock protocol: while some process still has work, some step is possible
+NoDeadlock == Maximal \/ ENABLED Next
 Emit == ~Maximal \/ CSVWrite("%1$s", <<ToJson([sched |-> sched, results |-> results, final |-> [c \in {"200", "201"} |-> IF c = "200" THEN reg[200] ELSE reg[201]]])>>, OutFile)
 View == <<reg, readers, writer, pc, opi, seen, results, sched>>
 ====
